@@ -475,6 +475,8 @@ fn cmd_survey(prop: &str, count: u64, thorough: bool) -> i32 {
     let opts = RunOpts { prop: prop.to_string(), thorough };
     let corpus = load_corpus();
     let corpus = &corpus;
+    let known = load_known();
+    let known = &known;
     let next = AtomicU64::new(0);
     let mut all: BTreeMap<String, (u64, u64, String)> = BTreeMap::new();
     std::thread::scope(|s| {
@@ -492,8 +494,9 @@ fn cmd_survey(prop: &str, count: u64, thorough: bool) -> i32 {
                     }
                     let sc = scenario_for(corpus, &gp, base_seed, i);
                     let rep = run_scenario(&sc, opts);
-                    for (_, vi) in rep.violations.iter() {
-                        let sig = format!("{} {} {}", vi.prop, vi.clause, if vi.prop == "C06" || vi.prop == "C10" || vi.prop == "C20" { vi.msg.clone() } else { String::new() });
+                    for (r, vi) in rep.violations.iter() {
+                        let is_known = known.findings.iter().any(|k| matches_known(k, vi.prop, vi, &sc, *r));
+                        let sig = format!("{}{} {} {}", if is_known { "(known) " } else { "" }, vi.prop, vi.clause, if vi.prop == "C06" || vi.prop == "C10" || vi.prop == "C20" { vi.msg.clone() } else { String::new() });
                         let e = m.entry(sig).or_insert((0, i, vi.msg.clone()));
                         e.0 += 1;
                         if i < e.1 {
